@@ -389,16 +389,16 @@ fn rx160_phase(rep: &mut Report, thorough: bool) {
         .map(|t| {
             let core = OPWKinematics::new_with_constraints(params, Constraints::new([-3.9; 6], [3.9; 6], 0.0));
             let kin = Tool { robot: Arc::new(Base { robot: Arc::new(core), base: to_na(&base_iso) }), tool: to_na(&tool_iso) };
-            KinematicsWithShape {
-                kinematics: Arc::new(kin),
-                body: RobotBody {
+            crate::common::cell::assemble(
+                Arc::new(kin),
+                RobotBody {
                     joint_meshes: [links[0].clone(), links[1].clone(), links[2].clone(), links[3].clone(), links[4].clone(), links[5].clone()],
                     tool: Some(tool_mesh.clone()),
                     base: Some(BaseBody { mesh: base_mesh.clone(), base_pose: to_na(&base_iso).cast::<f32>() }),
                     collision_environment: env_poses.iter().map(|p| CollisionBody { mesh: object.clone(), pose: to_na(p).cast::<f32>() }).collect(),
                     safety: t.build(),
                 },
-            }
+            )
         })
         .collect();
     let mut qs: Vec<Joints> = Vec::new();
